@@ -24,7 +24,7 @@ def u(n):
     return ast.unparse(n)
 
 
-COQ_TY = {"VBcol": "list bool", "Z": "Z", "B": "bool", "Pos": "(Z * Z)", "VB": "list bool", "MB": "list (list bool)", "VPos": "list (Z * Z)", "VZ": "list Z",
+COQ_TY = {"F": "Z", "VF": "list Z", "VBcol": "list bool", "Z": "Z", "B": "bool", "Pos": "(Z * Z)", "VB": "list bool", "MB": "list (list bool)", "VPos": "list (Z * Z)", "VZ": "list Z",
           "MZ": "list (list Z)", "PB": "(bool * bool)", "VPB": "list (bool * bool)", "Ext": "unit", "Key": "unit"}
 
 PRELUDE = r'''(* element-wise operations on small fixed-rank arrays: a (2,) integer array is a pair, an (N, N) integer array a list of rows *)
@@ -47,6 +47,9 @@ Definition jnp_unique (v : list Z) (n : Z) (f : Z) : list Z :=
   firstn (Z.to_nat n) (u ++ repeat f (Z.to_nat n - length u)).
 (* base.at[idxs].set(v) with an index ARRAY: one scatter per index (all writes carry the same value) *)
 Definition scatter_const {A : Type} (base : list A) (idxs : list Z) (v : A) : list A := fold_left (fun b i => jset b i v) idxs base.
+(* jnp.dot(mask, values) for a boolean mask and float values carried as exact dyadic integers (the sum is exact in the model) *)
+Fixpoint dot_bf (p : list bool) (v : list Z) : Z :=
+  match p, v with pi :: p', vi :: v' => (if pi then vi else 0) + dot_bf p' v' | _, _ => 0 end.
 Definition m_map {A B : Type} (f : A -> B) (a : list (list A)) : list (list B) := map (map f) a.
 Definition m_all (a : list (list bool)) : bool := forallb (forallb (fun b : bool => b)) a.
 Definition m_eqb (a b : list (list Z)) : bool := list_eqb (list_eqb Z.eqb) a b.      (* jnp.array_equal on equally shaped arrays *)
@@ -95,6 +98,8 @@ class Tr:
                 c, pts, rt = S["functions"][n.id]
                 return c, ("fn", pts, rt)
             raise Unsupported("unknown name " + n.id)
+        if isinstance(n, ast.Attribute) and u(n) == "jnp.dot":
+            return "dot_bf", ("fn", ["VB", "VF"], "F")
         if isinstance(n, ast.Attribute):
             if u(n).startswith("self.") and "self" not in self.env and "." in u(n)[5:] and u(n)[5:] in S.get("methods", {}):
                 c, pts, rt = S["methods"][u(n)[5:]]
@@ -120,6 +125,8 @@ class Tr:
             raise Unsupported("attribute %s of a %s" % (n.attr, t))
         if isinstance(n, ast.UnaryOp) and isinstance(n.op, ast.Invert):
             v, t = self.expr(n.operand)
+            if t == "VB":
+                return "(map negb %s)" % v, "VB"
             if t != "B":
                 raise Unsupported("~ on " + str(t))
             return "(negb %s)" % v, "B"
@@ -128,6 +135,10 @@ class Tr:
             b, tb = self.expr(n.right)
             if isinstance(n.op, (ast.BitOr, ast.BitAnd)) and ta == tb == "B":
                 return "(%s %s %s)" % (a, "||" if isinstance(n.op, ast.BitOr) else "&&", b), "B"
+            if isinstance(n.op, ast.Sub) and ta == tb == "F":
+                return "(rnd (%s - %s))" % (a, b), "F"        # the ONE float operation that can be inexact: an explicit rounding
+            if isinstance(n.op, ast.BitAnd) and ta == tb == "VB":
+                return "(zip_with andb %s %s)" % (a, b), "VB"
             if isinstance(n.op, ast.Mod) and ta == tb == "Z":
                 return "(%s mod %s)" % (a, b), "Z"       # Python's % and Coq's mod agree for a positive modulus (floor)
             if isinstance(n.op, (ast.Add, ast.Sub, ast.Mult)) and ta == tb == "Z":
@@ -170,6 +181,10 @@ class Tr:
                 return "(pos_cmp %s %s %s)" % (fsym, a, b), "PB"
             if ta == "VPos" and tb == "Z" and fsym:
                 return "(map (fun p_ : Z * Z => pos_cmp %s p_ %s) %s)" % (fsym, b, a), "VPB"
+            if ta == tb == "F" and fsym:         # comparisons of float32 values are exact
+                return "(%s %s %s)" % (fsym, a, b), "B"
+            if ta == "VF" and tb == "F" and fsym:
+                return "(map (fun x_ : Z => %s x_ %s) %s)" % (fsym, b, a), "VB"
             if ta == "VZ" and tb == "Z" and fsym:
                 return "(map (fun x_ : Z => %s x_ %s) %s)" % (fsym, b, a), "VB"
             if ta == "MZ" and tb == "Z" and fsym:
@@ -206,6 +221,10 @@ class Tr:
                     return "(jget [] %s %s)" % (v, i), "VB"
             if t == "VB" and isinstance(n.slice, ast.Slice) and n.slice.lower is None and n.slice.step is None and u(n.slice.upper) == "-1":
                 return "(removelast %s)" % v, "VB"
+            if t == "VF" and not isinstance(n.slice, (ast.Tuple, ast.Slice)):
+                i, ti = self.expr(n.slice)
+                if ti == "Z":
+                    return "(jget 0 %s %s)" % (v, i), "F"
             if t == "VPos" and not isinstance(n.slice, ast.Tuple):
                 i, ti = self.expr(n.slice)
                 if ti == "Z":
@@ -280,7 +299,7 @@ class Tr:
             if "TS" in (tg[2], th[2]) and all(isinstance(x, ast.Lambda) for x in n.args[1:3]):
                 return "(if %s then %s %s else %s %s)" % (c, g, " ".join(v for v, _ in xs), h, " ".join(v for v, _ in xs)), "TS"
             if "TS" in (tg[2], th[2]):      # termination / transition (reward, observation): the timestep model carries no observation
-                r = [v for v, t in xs if t == "Z"]
+                r = [v for v, t in xs if t in ("Z", "F")]
                 if len(r) != 1 or len(xs) != 2 or tg[2] != th[2]:
                     raise Unsupported("cond(done, termination, transition, reward, observation) shape")
                 return "(if %s then %s [%s] else %s [%s])" % (c, g, r[0], h, r[0]), "TS"
@@ -328,6 +347,8 @@ class Tr:
                 if isinstance(t0, tuple) and isinstance(t1, tuple) and t0[0] == t1[0] == "VZof" and t0[1] == t1[1] and (t0[2], t1[2]) == (0, 1):
                     # g.at[ps[:, 0], ps[:, 1]].set(v): one scatter per position (same value, so the order is irrelevant)
                     return "(fold_left (fun (g_ : list (list Z)) (p_ : Z * Z) => gset g_ (fst p_) (snd p_) %s) %s %s)" % (val, t0[1], arr), "MZ"
+            if ta == "VB" and tv == "B" and not isinstance(idx, (ast.Tuple, ast.Call)) and self.expr(idx)[1] == "Z":
+                return "(jset %s %s %s)" % (arr, self.expr(idx)[0], val), "VB"
             if ta == "VZ" and tv == "Z" and not isinstance(idx, (ast.Tuple, ast.Call)):
                 i, ti = self.expr(idx)
                 if ti == "Z":
@@ -457,6 +478,10 @@ class Tr:
             v, t = self.expr(n.args[0])
             if t == "VB":
                 return "(existsb (fun b => b) %s)" % v, "B"
+        if f == "jnp.array" and len(n.args) == 2 and u(n.args[1]) == "float" and not kws and S.get("float_rewards"):
+            v, t = self.expr(n.args[0])
+            if t == "Z":
+                return v, "F"
         if f == "jnp.array" and len(n.args) == 2 and u(n.args[1]) == "float" and not kws:
             v, t = self.expr(n.args[0])
             if t == "B":
